@@ -83,3 +83,20 @@ func decompressorSharingAlgo(algo string, triggers [][]byte, goroutines, perG in
 	wg.Wait()
 	return tr.Snapshot(), wrong, firstWrong
 }
+
+// earlyClient is an HTTPClient that reads only the first few KiB of the request body, stops
+// reading (closes it) and answers at once with a canned response: a server, proxy or interceptor
+// that judges a call without waiting for a large request.
+type earlyClient struct {
+	readBytes int
+	build     func() *http.Response
+}
+
+func (c *earlyClient) Do(req *http.Request) (*http.Response, error) {
+	if req.Body != nil {
+		buf := make([]byte, c.readBytes)
+		_, _ = io.ReadFull(req.Body, buf)
+		_ = req.Body.Close()
+	}
+	return c.build(), nil
+}
